@@ -1,1 +1,3 @@
 module github.com/matryer/modules
+
+go 1.23.5
